@@ -46,6 +46,7 @@ NS_EVENTS = ["n_flip0", "n_flip", "n_upper_enter", "n_second", "n_deep_leave", "
 
 def mcf_ref(n, arcs, s, t, demand, limit=200):
     ev = set()
+    work = {"mcf_bf_sweeps": 0, "mcf_augmentations": 0, "mcf_path_edges": 0, "mcf_edge_relaxations_per_run": 0}
     tails, heads, res, cost = [], [], [], []
     for u, v, cap, c in arcs:
         tails += [u, v]
@@ -58,7 +59,7 @@ def mcf_ref(n, arcs, s, t, demand, limit=200):
     while total_flow < demand:
         its += 1
         if its > limit:
-            return {"status": "HANG", "events": ev}
+            return {"status": "HANG", "events": ev, "work": work}
         dist = [INF] * n
         par = [None] * n
         dist[s] = 0
@@ -79,6 +80,8 @@ def mcf_ref(n, arcs, s, t, demand, limit=200):
             if not updated:
                 break
         score = max(score, last * 10 + (5 if n >= 6 and last == n - 1 else 0))
+        work["mcf_bf_sweeps"] = max(work["mcf_bf_sweeps"], rounds)
+        work["mcf_edge_relaxations_per_run"] = max(work["mcf_edge_relaxations_per_run"], rounds * len(tails))
         for k in (4, 6, 8):
             if last >= k:
                 ev.add(f"m_sweeps{k}")
@@ -87,7 +90,7 @@ def mcf_ref(n, arcs, s, t, demand, limit=200):
         if dist[t] == INF:
             if its > 1:
                 ev.add("m_infeas_part")
-            return {"status": "INFEASIBLE", "objective": None, "iterations": its, "events": ev, "score": score}
+            return {"status": "INFEASIBLE", "objective": None, "iterations": its, "events": ev, "score": score, "work": work}
         path, node, steps = [], t, 0
         while par[node] is not None:
             path.append(par[node])
@@ -96,6 +99,8 @@ def mcf_ref(n, arcs, s, t, demand, limit=200):
             if steps > n + 1:
                 return {"status": "HANG", "events": ev}
         path.reverse()
+        work["mcf_path_edges"] = max(work["mcf_path_edges"], len(path))
+        work["mcf_augmentations"] = its
         if any(e & 1 for e in path):
             ev.add("m_reverse")
         if n >= 4 and len(path) == n - 1:
@@ -124,16 +129,17 @@ def mcf_ref(n, arcs, s, t, demand, limit=200):
             used[(u, v)] = used.get((u, v), 0) + 1
     if any(c >= 2 for c in used.values()):
         ev.add("m_parallel")
-    return {"status": "OPTIMAL", "objective": total_cost, "iterations": its, "events": ev, "score": score}
+    return {"status": "OPTIMAL", "objective": total_cost, "iterations": its, "events": ev, "score": score, "work": work}
 
 
 def ns_ref(n, arcs, supplies, max_iter=1_000_000, limit=400):
     ev = set()
+    work = {"ns_pivots": 0, "ns_tree_walk_steps": 0, "ns_rehang_nodes": 0, "ns_priced_arcs_per_pivot": 0}
     if abs(sum(supplies)) > 1e-9:
-        return {"status": "INFEASIBLE", "objective": None, "iterations": 0, "events": ev}
+        return {"status": "INFEASIBLE", "objective": None, "iterations": 0, "events": ev, "work": work}
     if not arcs:
         ok = all(abs(x) < 1e-9 for x in supplies)
-        return {"status": "OPTIMAL" if ok else "INFEASIBLE", "objective": 0 if ok else None, "iterations": 0, "events": ev}
+        return {"status": "OPTIMAL" if ok else "INFEASIBLE", "objective": 0 if ok else None, "iterations": 0, "events": ev, "work": work}
     m = len(arcs)
     T = m + n
     src, tgt, cap, cost, flow = [0] * T, [0] * T, [0] * T, [0] * T, [0] * T
@@ -188,15 +194,18 @@ def ns_ref(n, arcs, supplies, max_iter=1_000_000, limit=400):
             delta, first, second = flow[entering], v, u
         a, b = first, second
         guard = 0
+        work["ns_pivots"] = its
+        work["ns_priced_arcs_per_pivot"] = T
         while a != b:
             guard += 1
             if guard > 4 * n + 8:
-                return {"status": "HANG", "events": ev}
+                return {"status": "HANG", "events": ev, "work": work}
             if depth[a] > depth[b]:
                 a = parent[a]
             else:
                 b = parent[b]
         join = a
+        work["ns_tree_walk_steps"] = max(work["ns_tree_walk_steps"], guard)
         if join != root:
             ev.add("n_join_low")
         leaving, lfirst, lnode = entering, True, None
@@ -267,6 +276,7 @@ def ns_ref(n, arcs, supplies, max_iter=1_000_000, limit=400):
                     ch = tgt[ca] if src[ca] == node else src[ca]
                     parent[ch], pred[ch] = node, ca
                     stack.append(ch)
+        work["ns_rehang_nodes"] = max(work["ns_rehang_nodes"], moved)
         if moved >= 3:
             ev.add("n_rehang3")
     if its >= 12:
@@ -276,10 +286,10 @@ def ns_ref(n, arcs, supplies, max_iter=1_000_000, limit=400):
             status = "INFEASIBLE"
             if its >= 4:
                 ev.add("n_infeas_piv")
-        return {"status": status, "objective": None, "iterations": its, "events": ev}
+        return {"status": status, "objective": None, "iterations": its, "events": ev, "work": work}
     if status == "MAX_ITER":
         ev.add("n_maxiter_feas")
-    return {"status": status, "objective": sum(flow[i] * cost[i] for i in range(m)), "iterations": its, "events": ev}
+    return {"status": status, "objective": sum(flow[i] * cost[i] for i in range(m)), "iterations": its, "events": ev, "work": work}
 
 
 def canon_mcf(n, arcs, s, t, d):
